@@ -59,6 +59,7 @@ def config_for(i, tier='quick'):
         dict(mode='thread', fault='task', branch='threaded'),
         dict(mode='event', fault='task', branch='distributed'),
         dict(mode='thread', fault='none', branch='distributed'),
+        dict(mode='event', fault='abort', branch='distributed'),
     ]
     return dict(classes[i % len(classes)])
 
@@ -203,6 +204,32 @@ def _call_sub(fname, args):
     return v
 
 
+def _call_abort(fname, args):
+    """A task that aborts the whole workflow through context.abort_workflow (closes the
+    dask client; run() must then return None)."""
+    run = _CUR[0]
+    argsigs = tuple(enc(a) for a in args)
+    run.seq += 1
+    run.calls.append((run.seq, 'start', fname, argsigs, None))
+    run.aborted = True
+    args[0].abort_workflow('stop everything')
+    v = value_of(fname, argsigs)
+    run.seq += 1
+    run.calls.append((run.seq, 'end', fname, argsigs, v))
+    return v
+
+
+def get_abort_fn(i):
+    key = ('a', i)
+    fn = _FUNCS.get(key)
+    if fn is None:
+        def fn(context, *args, _name=f'a{i}'):
+            return _call_abort(_name, (context,) + args)
+        fn.__name__ = f'a{i}'
+        _FUNCS[key] = fn
+    return fn
+
+
 def get_caller_fn(i):
     key = ('h', i)
     fn = _FUNCS.get(key)
@@ -289,6 +316,8 @@ class Violation(Exception):
 def fname_of(sp):
     if sp.get('caller'):
         return 'h' + str(sp['fi'])
+    if sp.get('aborter'):
+        return 'a' + str(sp['fi'])
     fk = sp.get('fkind', 'ctx' if sp['ctxful'] else 'plain')
     return {'plain': 'f', 'ctx': 'g', 'lookalike': 'k', 'partial': 'p', 'second': 'q'}[fk] + str(sp['fi'])
 
@@ -312,6 +341,8 @@ class World:
         self.uses_results_string = False
         self.allow_results = True
         self.allow_sub = False
+        self.allow_abort = False
+        self.has_aborter = False
         self.in_sub = False
         self.subs = {}
 
@@ -390,6 +421,19 @@ class World:
         if sp.get('caller'):
             self.spec[uid] = sp
             self.tasks[uid] = Task(sp['name'], get_caller_fn(sp['fi']), *sp['static'])
+            return uid
+        if like is None and self.allow_abort and not self.in_sub and not self.has_aborter and \
+                t.draw(5, 'aborter') == 4:
+            self.has_aborter = True
+            sp = {'name': sp['name'], 'fi': sp['fi'], 'ctxful': True, 'fkind': 'ctx', 'aborter': True,
+                  'static': tuple(x for x in sp['static'] if x != 'results' and x != 'L' and x != 'F')}
+            self.spec[uid] = sp
+            self.tasks[uid] = Task(sp['name'], get_abort_fn(sp['fi']), *sp['static'])
+            self.count('op.aborter_task')
+            return uid
+        if sp.get('aborter'):
+            self.spec[uid] = sp
+            self.tasks[uid] = Task(sp['name'], get_abort_fn(sp['fi']), *sp['static'])
             return uid
         self.spec[uid] = sp
         fk = sp.get('fkind', 'ctx' if sp['ctxful'] else 'plain')
@@ -776,6 +820,10 @@ def make_distributed_stubs(env_ref, stats):
 
         def get(self, dsk, key, sync=True, **kw):
             res = self._get(dsk, key)
+            if self.closed:
+                # the client was closed while the graph ran: the real client cancels the
+                # outstanding futures and client.get raises FutureCancelledError
+                raise _P['dd'].client.FutureCancelledError(key, 'client closed')
             return res if sync else _Done(res)
 
         active_keys = []     # keys of graphs in flight in the (shared) scheduler
@@ -851,6 +899,7 @@ def run_one(cfg, tape: Tape, want_trace=False):
     world = World(tape, stats)
     world.allow_results = cfg['branch'] == 'threaded'
     world.allow_sub = cfg['branch'] == 'distributed'
+    world.allow_abort = cfg['branch'] == 'distributed' and cfg.get('fault') == 'abort'
     violations = []
     res = {'violations': violations, 'harness_error': None, 'stats': stats, 'steps': 0,
            'switches': 0, 'sim_seconds': 0.0, 'outcome': 'ok', 'states': []}
@@ -1058,6 +1107,16 @@ def _execute(cfg, tape, world, wf, m, multi, viol, stats, h, want_trace):
                     v = a.strip("'")
                     if v not in ended or ended[v] > c[0]:
                         viol('started-before-predecessor', f'{c[2]} started with {v} before it existed')
+    aborted = getattr(run, 'aborted', False)
+    if aborted:
+        # context.abort_workflow closed the client: run() returns None, nothing runs twice
+        stats['exec.aborted'] = stats.get('exec.aborted', 0) + 1
+        if exc is not None:
+            viol(f'raised/{type(exc).__name__}', f'aborted workflow: execute_workflow raised {exc!r}')
+        elif outcome.get('value') is not None:
+            viol('abort-ignored', f'the workflow was aborted but execute_workflow returned '
+                                  f'{outcome.get("value")!r}')
+        return out
     if not fail_sigs or not raised:
         if exc is not None:
             viol(f'raised/{type(exc).__name__}', f'execute_workflow raised {exc!r}')
